@@ -46,8 +46,9 @@ Print Assumptions C10_first_datagram_lost_refuted_v0.
 Theorem C10_source_shape :
   Gen_udp.reverse_first_datagram_forwarded = true /\ Gen_udp.reverse_known_session_forwarded = true /\
   Gen_udp.quic_frames_dispatched_by_session_id = true /\
-  Gen_udp.quic_fragment_ids_shared_by_all_writers = true /\ Gen_udp.quic_one_reassembly_table_per_connection = true.
-Proof. repeat split; reflexivity. Qed.
+  Gen_udp.quic_fragment_ids_shared_by_all_writers = true /\ Gen_udp.quic_one_reassembly_table_per_connection = true /\
+  Gen_udp.quic_demux_never_waits_for_a_session = true /\ (1 <= Gen_udp.quic_session_queue_capacity)%nat.
+Proof. repeat split; try reflexivity. vm_compute. repeat constructor. Qed.
 Print Assumptions C10_source_shape.
 
 (* ---- UDP carried as QUIC datagrams: payloads larger than one QUIC packet, any number of sessions on one connection --- *)
@@ -96,3 +97,26 @@ Print Assumptions C10_per_writer_fragment_ids_refuted.
 Example C10_example :
   of_session 2 (u_handed (accept_all [(1, [10]); (2, [20]); (1, [11]); (2, [21])])) = [[20]; [21]].
 Proof. reflexivity. Qed.
+
+
+(* ---- one loop serves every session of a connection: a session that does not keep up must not hold up the others ---- *)
+
+(* For every sequence of arrivals (Deliver) and of relay tasks taking frames at their own pace (Take), every queue capacity
+   and every registered set of sessions: what session b is handed is what it would be handed if nothing at all arrived for
+   the other sessions and none of them ever took a frame.  The demultiplexer is the one the source has (Gen_udp: try_send). *)
+Theorem C10_demux_isolation : forall cap b ops q1 q2,
+  own q1 -> own q2 -> alookup b q1 = alookup b q2 ->
+  filter (fun f => f_sid f =? b) (drun (negb Gen_udp.quic_demux_never_waits_for_a_session) cap q1 ops) =
+  filter (fun f => f_sid f =? b) (drun (negb Gen_udp.quic_demux_never_waits_for_a_session) cap q2 (filter (concerns b) ops)).
+Proof. exact demux_isolation. Qed.
+Print Assumptions C10_demux_isolation.
+
+(* what fix 6fd5f9f repaired: with send().await a session that never takes a frame starves a neighbour whose queue is
+   empty and whose relay is ready *)
+Theorem C10_waiting_demux_refuted :
+  let fr sid := mk_frame None sid [7] in
+  let ops := [Deliver (fr 1); Deliver (fr 1); Deliver (fr 1); Deliver (fr 2); Take 2; Deliver (fr 2); Take 2] in
+  drun true 2 [(1, []); (2, [])] ops = [] /\
+  drun false 2 [(1, []); (2, [])] ops = [fr 2; fr 2].
+Proof. exact waiting_demux_starves_neighbours. Qed.
+Print Assumptions C10_waiting_demux_refuted.
